@@ -124,7 +124,18 @@ pub(crate) fn optimize(
 
 // Only keep one minimizer for every start mode.
 fn remove_hopeless_cases(list: &mut Vec<GenericPlan>) {
+    #[cfg(datamatrix_verif)]
+    let verif_unsorted: Option<Vec<_>> = if crate::verif_hooks::prune_log_on() {
+        Some(list.iter().map(|p| p.switches.clone()).collect())
+    } else {
+        None
+    };
     list.sort_unstable_by_key(Plan::cost);
+    #[cfg(datamatrix_verif)]
+    if let Some(pre) = verif_unsorted {
+        let post: Vec<_> = list.iter().map(|p| &p.switches).collect();
+        crate::verif_hooks::prune_perm_record(&pre, &post);
+    }
     #[cfg(datamatrix_verif)]
     if crate::verif_hooks::prune_log_on() {
         crate::verif_hooks::prune_record(false, list.iter().map(verif_plan_record).collect());
